@@ -20,7 +20,7 @@ import (
 	"github.com/flamego/flamego/verifharness/internal/gen"
 )
 
-const rule = "case = request method in {GET, HEAD, POST, PUT, DELETE, OPTIONS, \"\"} x an underlying writer (with or without http.Flusher, with or without io.ReaderFrom; sometimes itself a fresh flamego ResponseWriter around the spy) x a history of 1..14 operations over {WriteHeader(100..999), Write / io.WriteString / io.Copy of 0..64 bytes or of 0.5..70 KB (optionally cut short by the underlying writer with an error), Flush, Before(hook)}; hooks set a header, read Status()/Written(), log themselves and sometimes register one more function while they run. A second check overlaps two status-triggering operations from two goroutines (the harness holds the first status line inside the underlying writer until the second operation has been issued). " +
+const rule = "case = request method in {GET, HEAD, POST, PUT, DELETE, OPTIONS, \"\"} x an underlying writer (with or without http.Flusher, with or without io.ReaderFrom; sometimes itself a fresh flamego ResponseWriter around the spy) x a history of 1..14 operations over {WriteHeader(100..999), Write / io.WriteString / io.Copy of 0..64 bytes or of 0.5..70 KB (optionally cut short by the underlying writer with an error), Flush, Before(hook)}; hooks set a header, read Status()/Written(), log themselves and sometimes register one more function while they run. " +
 	"Oracle: a state-machine model written from the statement, compared after every step (Status, Written, Size, return values of Write) together with invariants over the log of calls the underlying writer received (<=1 WriteHeader, before every Write/Flush; hooks registered before the trigger ran exactly once, in reverse order, before that WriteHeader, and saw Status()==0; later hooks never run). " +
 	"non-trivial = a history with >=2 hooks and a trigger, or a second WriteHeader / an implicit 200, or a body write on HEAD, or a short write; distinct by case text"
 
@@ -208,6 +208,10 @@ func checkCase(c Case) (out evid.Outcome) {
 			if c.Method == http.MethodHead {
 				// nothing is forwarded; the statement leaves the reported count open
 				// (all bytes "consumed", or none), but it is not an error
+				if op.K == "cp" && n == 0 && err == io.ErrShortWrite {
+					// a Write that reports 0 bytes for HEAD makes io.Copy itself say so
+					err = nil
+				}
 				if err != nil || (n != op.V && n != 0) {
 					return fail(out, "write-result", "%s: Write on a HEAD request returned (%d, %v)", desc, n, err)
 				}
@@ -346,9 +350,6 @@ func genCase(t *rapid.T) Case {
 			if rapid.IntRange(0, 9).Draw(t, "big") == 0 {
 				op.V = gen.BigSizes[rapid.IntRange(0, len(gen.BigSizes)-1).Draw(t, "bigsize")]
 			}
-			if op.K == "cp" && op.V == 0 {
-				op.V = 1
-			}
 			if op.K != "cp" && rapid.IntRange(0, 5).Draw(t, "short") == 0 && op.V > 0 {
 				op.Short = rapid.IntRange(1, op.V).Draw(t, "cut")
 			}
@@ -372,19 +373,6 @@ func TestProp(t *testing.T) {
 
 func TestReplay(t *testing.T) {
 	evid.Replay(t, map[string]evid.ReplayFn{
-		"overlap": func(raw json.RawMessage) evid.Outcome {
-			var c OverlapCase
-			if err := json.Unmarshal(raw, &c); err != nil {
-				panic(err)
-			}
-			// schedule-dependent at the margin: repeat
-			for i := 0; i < 20; i++ {
-				if o := checkOverlap(c); o.Violation != "" {
-					return o
-				}
-			}
-			return evid.Outcome{}
-		},
 		"history": func(raw json.RawMessage) evid.Outcome {
 			var c Case
 			if err := json.Unmarshal(raw, &c); err != nil {
